@@ -52,9 +52,16 @@ Proof.
   intros minc sev sim H. destruct H as [H|[H|H]]; subst sev; (split; [vm_compute; reflexivity | split; reflexivity]).
 Qed.
 
+(* every single-analysis tool reads its include / exclude patterns from the [analysis] section only, the section the
+   command line selects the files with (was finding F70: detect_clones read [clones] include_patterns / exclude_patterns,
+   so `[analysis] exclude_patterns` did not reach it) *)
+Theorem C20_tools_select_files_like_cli : tools_select_files_like_cli = true.
+Proof. vm_compute. reflexivity. Qed.
+
 Print Assumptions C20_interleaving.
 Print Assumptions C20_combined_eq_separate.
 Print Assumptions C20_unselected_empty.
 Print Assumptions C20_per_file_independent.
 Print Assumptions C20_order_only_permutes.
 Print Assumptions C20_mcp_eq_cli.
+Print Assumptions C20_tools_select_files_like_cli.
